@@ -38,30 +38,27 @@ def dec_jobs(tier, rnd):
 
 
 def prod_scenario(n, L, tail_bits, zeros, rnd):
-    """n-1 (or n-2) concrete coefficients encoded by the reference encoder so that about `tail_bits` (+ a stretch of
-    `zeros` zero bytes) remain; everything after the prefix is symbolic."""
+    """n-2 concrete coefficients encoded by the reference encoder so that exactly `tail_bits` (+ `zeros` zero bytes) remain;
+    everything after the last whole prefix byte is symbolic (except the zero stretch)."""
     k = 2
-    total = 8 * L
-    target = total - tail_bits - 8 * zeros
-    while True:
-        v = [int(rnd.gauss(0, 170)) for _ in range(n - k)]
-        bits = len(spec.compress_bits(v))
-        # pad by enlarging coefficients until the prefix ends at a byte boundary near the target
-        i = 0
-        while bits + 128 <= target - 7 and i < len(v):
-            add = min(90 - (abs(v[i]) >> 7), (target - bits) // 1 // 1, 60)
-            if add > 0:
-                v[i] += (1 if v[i] >= 0 else -1) * 128 * add; bits += add
-            i += 1
-        while bits % 8 != (target % 8) and i < len(v):
-            v[i] += (1 if v[i] >= 0 else -1) * 128; bits += 1; i += 1
-        if bits <= target and all(abs(x) < spec.COEFF_LIMIT for x in v) and target - bits < 64:
-            break
+    P = 8 * L - tail_bits - 8 * zeros                 # target length of the prefix in bits
+    v = [max(-2047, min(2047, int(rnd.gauss(0, 170)))) for _ in range(n - k)]
+    bits = len(spec.compress_bits(v))
+    guard = 0
+    while bits != P and guard < 200000:
+        guard += 1
+        i = rnd.randrange(len(v))
+        h = abs(v[i]) >> 7
+        if bits < P and h < 90:
+            v[i] += 128 if v[i] >= 0 else -128; bits += 1
+        elif bits > P and h > 0:
+            v[i] -= 128 if v[i] > 0 else -128; bits -= 1
+    assert bits == P and bits == len(spec.compress_bits(v)), (bits, P)
     pre = spec.compress_bits(v)
     nb = len(pre) // 8
     prefix = [int(''.join(map(str, pre[8 * j:8 * j + 8])), 2) for j in range(nb)]
-    # leftover bits of the prefix (not a whole byte) are left symbolic together with the tail: the decoder then also
-    # explores inputs whose prefix differs there; all of them are checked against the reference
+    # the leftover bits of the prefix (less than a byte) are symbolic together with the tail: the decoder then also explores
+    # inputs whose prefix differs there; all of them are checked against the reference
     buf = prefix + [None] * (L - nb)
     if zeros:
         z0 = nb + 3
@@ -162,6 +159,22 @@ def confirm_compress_bad(rep, b):
     return False
 
 
+def validate_samples(rep, job, r):
+    """translator validation: the models mirsym produced for accepting paths are pushed through the real code; the native
+    result must be what mirsym computed (a disagreement means the executor or a summary misrepresents the code)"""
+    for smp in r.get('samples', [])[:2]:
+        if job[1] == 'decompress_scen':
+            got = replay.call1(['decompress', r['n'], hexs(smp['input'])])
+            want = 'Some ' + ','.join(map(str, smp['decoded']))
+        else:
+            got = replay.call1(['compress', smp['L'], ','.join(map(str, smp['v'])) if smp['v'] else '-'])
+            want = 'Some ' + (hexs(smp['bytes']))
+        if got == want:
+            rep.replayed += 1
+        else:
+            rep.note_inconclusive('translator validation failed (%s): mirsym says %s, the real code says %s' % (r.get('tag'), want[:80], got[:80]))
+
+
 def run(rep, tier, what=('dec', 'comp')):
     rnd = random.Random(seed() * 7919 + 17)
     prog, secs = load_program(fresh=True)
@@ -183,6 +196,7 @@ def run(rep, tier, what=('dec', 'comp')):
                                                       'obligations': r['obligations'], 'wall_s': round(r['wall_s'], 1)})
         for s in r.get('samples', [])[:1]:
             rep.sample({'scenario': r.get('tag'), 'accepted_path_model': s})
+        validate_samples(rep, job, r)
         for p in r.get('panics', []):
             if job[1] == 'decompress_scen':
                 confirm_decompress_panic(rep, p, rep.pid)
